@@ -51,10 +51,9 @@ def _extra(ctx, spec):
 
 
 def _race_extra(ctx, spec):
-    """thorough tier: the listener family once more under the race detector; any report is a violation
-    ("without deadlock or data race"), answers must equal the model's as in the plain run"""
-    if ctx.tier != 'thorough':
-        return
+    """both tiers: the listener family (quick-tier size: 1500 operations, all buffer sizes, Reset chains, customised file
+    sets) once more under the race detector; any report is a violation ("without deadlock or data race"), answers must
+    equal the model's as in the plain run. (≈ 15 s once the race build of the harness is cached.)"""
     import framework as F
     from . import _race
     r = _race.run_race(ctx, 'listener', tier='quick')
@@ -81,20 +80,23 @@ PROP = dict(
     theorems=['Fit.C14.C14_tables_ok', 'Fit.C14.C14_build_keeps_last', 'Fit.C14.C14_conservation',
               'Fit.C14.C14_conservation_no_file_id', 'Fit.C14.C14_prefix_order', 'Fit.C14.C14_sort_stable',
               'Fit.C14.C14_sort_unique', 'Fit.C14.C14_timestampless_first', 'Fit.C14.C14_sorted_stable_partial',
-              'Fit.C14.C14_sorted_suffix', 'Fit.C14.C14_KF2_witness',
+              'Fit.C14.C14_sorted_suffix', 'Fit.C14.C14_KF2_witness', 'Fit.C14.C14_file_types_pinned', 'Fit.C14.C14_stable_within_kind',
+              'Fit.C14.C14_KF2_class', 'Fit.C14.C14_sorted_unrelated_only', 'Fit.C14.C14_content_stable_within_kind',
               'Fit.C14.C14_content_tables_ok', 'Fit.C14.C14_content_no_panic', 'Fit.C14.C14_content_nil_fieldbase_panics',
               'Fit.C14.C14_content_model_eq', 'Fit.C14.C14_content_norm', 'Fit.C14.C14_content_is_typed_normal',
               'Fit.C14.C14_content_first_sentence_partial', 'Fit.C14.C14_content_conservation_no_file_id',
-              'Fit.C14.C14_listener_inv', 'Fit.C14.C14_listener_deadlock_free', 'Fit.C14.C14_listener_eq_sequential',
+              'Fit.C14.C14_listener_inv', 'Fit.C14.C14_listener_progress', 'Fit.C14.C14_listener_deadlock_free', 'Fit.C14.C14_listener_eq_sequential',
               'Fit.C14.C14_listener_never_deadlocked', 'Fit.C14.C14_listener_no_carry_over', 'Fit.C14.C14_listener_run_is_path',
               'Fit.C14.C14_listener_unbuffered_handover', 'Fit.C14.C14_listener_buffer0_completes',
-              'Fit.C14.C14_listener_builds_file'],
+              'Fit.C14.C14_listener_builds_file', 'Fit.C14.C14_listener_no_data_race', 'Fit.C14.C14_listener_access_frame',
+              'Fit.C14.C14_listener_terminates', 'Fit.C14.C14_listener_file_sets', 'Fit.C14.C14_listener_legacy_is_instance'],
     extra=_extra,
     families=[dict(name='filedef', prop=True, spec=True), dict(name='listener', spec=True)],
     trusted_base=STD_TRUST + [
-        "the listener is a hand-written transition system over listener.go (channel semantics per the Go spec: buffered send/receive, unbuffered rendezvous, close); it is tied to the code by behaviour: results of every File(), and deadlock / termination, for buffer sizes 0..8, 64, 128, chained sequences, Reset/Close reuse, GOMAXPROCS 1/2/16, against the model run under a seeded scheduler and against the one-thread specification",
+        "the listener is a hand-written transition system over listener.go (channel semantics per the Go spec: buffered send/receive, unbuffered rendezvous, close; the options cell l.options.fileSets written by Reset and read by the worker); it is tied to the code by behaviour: results of every File(), and deadlock / termination, for buffer sizes 0..8, 64, 128, chained sequences, Reset/Close reuse, file sets customised with WithFileSets (a fresh map, and an edited copy of PredefinedFileSet()) and WithFileFunc in NewListener and in Reset, GOMAXPROCS 1/2/16, against the model run under a seeded scheduler and against the one-thread specification",
+        "the access annotation of the no-data-race theorem (which memory cells each step of either thread reads and writes) is read off listener.go; its write side is proved complete for the model (C14_listener_access_frame), its correspondence to the compiled code is what the race detector samples",
         "deadlock of the real listener is observed by a stop-the-world goroutine snapshot (calling goroutine and every listener worker blocked in channel operations), not by a timeout",
-        "data-race freedom of the compiled listener is sampled by the race detector (thorough tier), not proved; proved is exclusive ownership of slices and of the file cell in the model",
+        "data-race freedom of the COMPILED listener is sampled by the race detector (both tiers: the 1500 quick-tier operations of the listener family), not proved; proved is data-race freedom of the model (C14_listener_no_data_race, from the invariant)",
         "file-type tables (slot kinds, emission order, sort start, candidate-field modes) are regenerated on every run by black-box probing of filedef.PredefinedFileSet() with tagged messages",
         "content of messages: the typed-struct tables of C13 (fitharness regen mesgdef) and the factory dump; that a file type's Add/ToFIT use mesgdef.NewXxx / ToMesg of the message number's own struct and keep other messages verbatim is tied by the op filedefc (real messages in, every output message compared in full with the model and with the demanded normal forms)",
     ],
@@ -102,7 +104,8 @@ PROP = dict(
 )
 
 TEXT = dict(
-    technique='Lean 4 proof: multiset conservation / prefix / unique stable sort over file-type tables regenerated by black-box probing, generic in the message representation and instantiated on real protocol messages where Add = C13 ofMesg and ToFIT = C13 toMesg (content = typedNormal, by the C13 theorem); invariant, deadlock freedom and refinement to a one-thread specification for a labelled transition system of the listener (every buffer size >= 0, every script, every interleaving); differential tie + race detector',
-    text='For all 17 file types (tables re-probed from the code on every run) and every message list: ToFIT(build) is a permutation of the input with singletons keeping their last occurrence, starts with file_id / developer_data_id / field_description, and the rest is the unique stable sort by the timestamp key for the 9 types that sort everything (the other 8 sort only unrelated messages or nothing: open finding KF-C14-2). On real protocol messages (C14_content_*): Add stores mesgdef.NewXxx(&m) (C13 ofMesg), ToFIT emits ToMesg (C13 toMesg) and sorts on the emitted messages; by C13_mesg_struct_mesg this equals the same layer applied to the normal forms, so every output message is typedNormal of an input message (typed kinds) or an input message itself (unrelated kinds) and the whole first sentence of the property holds of real messages (C14_content_first_sentence_partial). The listener model (pool/queue/done channels, OnMesg/File/Close/Reset, worker loop) keeps every pooled slice exclusively owned, never deadlocks and returns exactly the files of the one-thread specification for every buffer size >= 0 (0 = unbuffered message channel with a one-slice pool: synchronous hand-over), script (Reset through 0 and back included) and interleaving. The deadlock of buffer size 0 (F15) was reported by this check and is repaired in /repo (fixed entry KF-C14-1); reverting the repair makes the correspondence and the one-thread specification fail on every operation that delivers a message at size 0.',
-    note='Trusted: Lean kernel; the probe that regenerates the file-type tables; the hand-written listener model and Go channel semantics; harness/driver protocol. Content: abstract messages carry an opaque digest (listener model, digest ops); the op filedefc and the C14_content_* theorems are about real messages with the typed normalisation of C13. Data-race freedom of the binary is sampled (-race), not proved.',
+    technique='Lean 4 proof: multiset conservation / prefix / unique stable sort over file-type tables regenerated by black-box probing, generic in the message representation and instantiated on real protocol messages where Add = C13 ofMesg and ToFIT = C13 toMesg (content = typedNormal, by the C13 theorem); invariant, data-race freedom, deadlock freedom, termination measure and refinement to a one-thread specification for a labelled transition system of the listener with its options (every buffer size >= 0, every file set, every script, every interleaving); differential tie + race detector',
+    text=('FILE TYPES. The regenerated table is pinned to the 17 file types by type byte and Go type (C14_file_types_pinned: a type dropped from the registry or the probe cannot pass). For all 17 and every message list: ToFIT(build) is a permutation of the input with singletons keeping their last occurrence (C14_conservation, C14_build_keeps_last), starts with file_id / developer_data_id / field_description (C14_prefix_order), and the rest is the unique stable sort by the timestamp key for the 9 types that sort everything (C14_sorted_stable_partial, C14_sort_unique). Stability is against the emission (slot) order; in terms of ARRIVAL order it is proved within a kind, for all 17 types: the output messages of one number and one timestamp key are in the order in which they were added (C14_stable_within_kind) — between different kinds with equal timestamps the order is the file type\'s slot order. The other 8 types (exactly among device, settings, sport, workout, schedules, goals, segment, segment_list: C14_KF2_class) sort only their unrelated messages, workout nothing: open finding KF-C14-2; what they do guarantee is C14_sorted_unrelated_only (typed kinds in slot order, each in arrival order; unrelated messages stably sorted among themselves / in arrival order for workout). On real protocol messages (C14_content_*): Add stores mesgdef.NewXxx(&m) (C13 ofMesg), ToFIT emits ToMesg (C13 toMesg) and sorts on the emitted messages; by C13_mesg_struct_mesg this equals the same layer applied to the normal forms, so every output message is typedNormal of an input message (typed kinds) or an input message itself (unrelated kinds) and the first sentence of the property holds of real messages (C14_content_first_sentence_partial, C14_content_stable_within_kind). '
+          'LISTENER. A two-thread transition system (pool / message / done channels, OnMesg / File / Close / Reset, worker loop) INCLUDING the options: the file sets (WithFileSets / WithFileFunc; generic type, any constructor) are a memory cell that Reset writes and the worker reads when it processes a file_id. For every buffer size >= 0 (0 = unbuffered message channel with a one-slice pool), every file set, every script (Reset through 0 and back, Reset with other file sets) and every interleaving: every pooled slice is exclusively owned (C14_listener_inv); NO DATA RACE in the model — no access of the producer\'s next step conflicts with an access of the worker\'s next step on l.file, l.options or the memory of a slice, derived from the invariant, with an access annotation whose writes are proved complete (C14_listener_no_data_race, C14_listener_access_frame); no deadlock (C14_listener_progress, C14_listener_never_deadlocked; C14_listener_deadlock_free is the same for the model without options, through the embedding — the statement C03 uses); TERMINATION — a measure that every step of either thread decreases: no infinite run, no run longer than mu (linear in the script and the buffer sizes), and every run that cannot be continued has made all its calls and handed out exactly the files of the one-thread execution under the file sets each Reset installed (C14_listener_terminates, C14_listener_eq_sequential); nothing carried from one sequence into the next (C14_listener_no_carry_over); a file_id whose type the file sets in force map to file type T yields T\'s file, one without constructor yields nil (C14_listener_builds_file, C14_listener_file_sets). The model without options (on which C03 states theorems) is this model at the trivial configuration (C14_listener_legacy_is_instance). The deadlock of buffer size 0 (F15) was reported by this check and is repaired in /repo (fixed entry KF-C14-1).'),
+    note='Trusted: Lean kernel; the probe that regenerates the file-type tables; the hand-written listener model, its access annotation and Go channel semantics; harness/driver protocol. Content: abstract messages carry an opaque digest (listener model, digest ops); the op filedefc and the C14_content_* theorems are about real messages with the typed normalisation of C13. Data-race freedom of the BINARY is sampled (-race, both tiers), not proved; data-race freedom of the model is proved.',
 )
